@@ -195,3 +195,101 @@ func HarnessFaults() {
 	}
 	verif.Reach("faults-done")
 }
+
+// HarnessRetry (C05/C04): a retry-tagged call in flight at the fault eventually
+// returns the genuine result; an untagged one returns the connection error (typed
+// when error mapping is on); the library re-sends only the tagged call.
+func HarnessRetry() {
+	kind := verif.Choice("fault", nFaults)
+	failDials := verif.Choice("faildials", verif.Bound("R", 1)+1)
+	withErrors := verif.Bool("witherrors")
+	st := newStats()
+	l := verif.ListenWS()
+	go faultyPeer(l, st, kind, 1, failDials, 0) // fault after the first request was read, before any answer
+
+	opts := []jsonrpc.Option{jsonrpc.WithReconnectBackoff(time.Millisecond, 5*time.Millisecond)}
+	if withErrors {
+		opts = append(opts, jsonrpc.WithErrors(jsonrpc.NewErrors()))
+	}
+	var c C
+	closer, err := jsonrpc.NewMergeClient(context.Background(), l.URL(), "NS", []interface{}{&c}, nil, opts...)
+	verif.Assert(err == nil, "client-created")
+	tok := verif.Int("tok")
+	verif.Assume(tok != 777)
+	tagged := verif.Bool("tagged")
+	var a outcome
+	if tagged {
+		go call(c.Retry, tok, &a)
+	} else {
+		go call(c.Echo, tok, &a)
+	}
+	verif.Quiesce()
+	verif.Assert(a.returns == 1, "call-returns")
+	if tagged {
+		verif.Assert(a.err == nil && a.val == tok, "retry-tagged-call-rides-out-the-outage")
+		verif.Assert(st.frames[tok] == 2, "retry-resends-exactly-once-per-lost-attempt")
+	} else {
+		verif.Assert(a.err != nil, "untagged-call-surfaces-connection-error")
+		verif.Assert(st.frames[tok] == 1, "untagged-call-never-resent")
+		if a.err != nil {
+			_, typed := a.err.(*jsonrpc.RPCConnectionError)
+			verif.Assert(typed == withErrors, "typed-connection-error-iff-error-mapping")
+		}
+	}
+	verif.Assert(l.Dials() == 2+failDials, "one-redial-per-attempt")
+	var p outcome
+	go call(c.Echo, 777, &p)
+	verif.Quiesce()
+	verif.Assert(p.returns == 1 && p.err == nil && p.val == 777, "client-heals-without-application-action")
+	closer()
+	verif.Quiesce()
+	verif.Reach("retry-done")
+}
+
+// HarnessNotify (C04): a notify-tagged call carries no id, is delivered exactly
+// once on a healthy link, returns without waiting for the server and never gets a response.
+func HarnessNotify() {
+	st := newStats()
+	l := verif.ListenWS()
+	gotID := false
+	go func() {
+		verif.Daemon()
+		pc := l.Accept()
+		for {
+			b, ok := pc.Recv()
+			if !ok {
+				return
+			}
+			var r wireReq
+			if json.Unmarshal(b, &r) != nil {
+				continue
+			}
+			tok := tokenOf(r)
+			if r.ID != nil && string(r.ID) != "null" {
+				gotID = true
+			}
+			st.noID[tok]++
+			// a (wrong) server that answers notifications must not confuse the client
+			if verif.Bound("answer_notifications", 0) == 1 {
+				pc.Send([]byte(`{"jsonrpc":"2.0","id":null,"result":1}`))
+			}
+		}
+	}()
+	var c C
+	closer, err := jsonrpc.NewMergeClient(context.Background(), l.URL(), "NS", []interface{}{&c}, nil)
+	verif.Assert(err == nil, "client-created")
+	tok := verif.Int("tok")
+	returned := 0
+	var nerr error
+	go func() {
+		nerr = c.Note(tok)
+		returned++
+	}()
+	verif.Quiesce()
+	verif.Assert(returned == 1 && nerr == nil, "notify-returns-without-response")
+	verif.Assert(st.noID[tok] == 1, "notify-delivered-exactly-once")
+	verif.Assert(!gotID, "notify-carries-no-id")
+	closer()
+	verif.Quiesce()
+	verif.Reach("notify-done")
+}
